@@ -164,6 +164,25 @@ def check_mixed_units(case, ctx):
         'detect_threshold': lambda: detect_threshold(pair[0], 2.0, error=pair[1], background=0.0 * getattr(pair[0], 'unit', 1)),
         'calc_total_error': lambda: calc_total_error(pair[0], pair[1], 2.0),
     }
+    # data vs threshold units (finders / detection)
+    from photutils.detection import (DAOStarFinder, IRAFStarFinder,
+                                     StarFinder, find_peaks)
+    from photutils.segmentation import SourceFinder, detect_sources
+    thr = 40.0 + float(case['scene']['pedestal'])
+    if which == 'data_only':
+        dd, tt = dq, thr
+    elif which == 'error_only':
+        dd, tt = d, thr * u.Jy
+    else:
+        dd, tt = dq, thr * u.m
+    calls.update({
+        'DAOStarFinder': lambda: DAOStarFinder(tt, 4.0)(dd),
+        'IRAFStarFinder': lambda: IRAFStarFinder(tt, 4.0)(dd),
+        'StarFinder': lambda: StarFinder(tt, X.kernel.copy())(dd),
+        'find_peaks': lambda: find_peaks(dd, tt, box_size=5),
+        'detect_sources': lambda: detect_sources(dd, tt, 5),
+        'SourceFinder': lambda: SourceFinder(5, progress_bar=False)(dd, tt),
+    })
     for name, fn in calls.items():
         try:
             with warnings.catch_warnings():
@@ -196,5 +215,5 @@ SUBCHECKS = [
     SubCheck('mixed_units', mixed_cases(), check_mixed_units,
              'every case: unit-ful mixed with unit-less (or incompatible) '
              'inputs must raise ValueError/UnitsError',
-             quick=(4, 10), thorough=(8, 200)),
+             quick=(4, 12), thorough=(8, 200)),
 ]
